@@ -182,8 +182,22 @@ Hand-written in `wow_world_messages/src/util/functions/{shared,wrath}.rs`: the t
 u32 id, terminated by the id 0xFFFFFFFF) and `MonsterMoveSplines` (u32 count, a full first point, packed further points).  They are
 sequences of four basic fields; everything is built from the integer / packed-guid primitives above, so the leaf codecs below can
 dispatch to them.  The other built-in names stay outside (`.other`). -/
+/-- basic fields of the built-in element layouts -/
+inductive BLeaf where
+  | u8
+  | u16
+  | u32        -- bit-transparent 32-bit value (ids, times, f32 / packed point bit patterns)
+  | pg         -- packed guid
+  | bool32     -- 0 / 1 sent as u32; any non-zero value reads as 1
+  | dt         -- DateTime
+  deriving Repr, DecidableEq, Inhabited
+
 inductive PrimKind where
-  | achDone | achProg | splines | updateMask | other
+  | achDone | achProg | splines | updateMask
+  | mask (w : Nat) (elem : List BLeaf)     -- `w`-byte bit pattern, one fixed-layout element per set bit (AuraMask, EnchantMask, CacheMask)
+  | gear                                   -- InspectTalentGearMask: 4-byte pattern, one InspectTalentGear per set bit
+  | namedGuid | virp
+  | other
   deriving Repr, DecidableEq, Inhabited
 
 def primKind (name : String) : PrimKind :=
@@ -191,25 +205,29 @@ def primKind (name : String) : PrimKind :=
   else if name = "AchievementInProgressArray" then .achProg
   else if name = "MonsterMoveSplines" then .splines
   else if name.startsWith "UpdateMask" then .updateMask
+  else if name = "AuraMask_1_12" then .mask 4 [.u16]
+  else if name = "AuraMask_2_4_3" then .mask 8 [.u16, .u8]
+  else if name = "AuraMask_3_3_5" then .mask 8 [.u32, .u8]
+  else if name = "EnchantMask" then .mask 2 [.u16]
+  else if name = "CacheMask" then .mask 4 [.u32]
+  else if name = "InspectTalentGearMask" then .gear
+  else if name = "NamedGuid" then .namedGuid
+  else if name = "VariableItemRandomProperty" then .virp
   else .other
 
 def sentinelId : Nat := 4294967295
 
-/-- basic fields of the built-in element layouts -/
-inductive BLeaf where
-  | u32        -- bit-transparent 32-bit value (ids, times, f32 / packed point bit patterns)
-  | pg         -- packed guid
-  | bool32     -- 0 / 1 sent as u32; any non-zero value reads as 1
-  | dt         -- DateTime
-  deriving Repr, DecidableEq, Inhabited
-
 def encB : BLeaf → Nat → Option Bytes
+  | .u8, n => encInt 1 .le n
+  | .u16, n => encInt 2 .le n
   | .u32, n => encInt 4 .le n
   | .pg, n => if n < 256 ^ 8 then let (m, p) := packBytes (encLE 8 n); some (UInt8.ofNat (bitsToNat m) :: p) else Option.none
   | .bool32, n => if n ≤ 1 then encInt 4 .le n else Option.none
   | .dt, n => if n < 4294967296 ∧ dateTimeValid n then encInt 4 .le n else Option.none
 
 def decB : BLeaf → Bytes → Except Err (Nat × Bytes)
+  | .u8, bs => decInt 1 .le bs
+  | .u16, bs => decInt 2 .le bs
   | .u32, bs => decInt 4 .le bs
   | .pg, bs => match bs with
       | [] => .error .eof
@@ -343,6 +361,104 @@ def decUpdateMask (bs : Bytes) : Except Err (Val × Bytes) :=
       | .ok (values, r3) =>
         if umTypeOk masks values then .ok (.tuple [.list masks, .list values], r3) else .error (.enumValue 0)
 
+/-! mask-indexed optional slots (`wow_world_messages/src/manual/**/{aura,enchant,cache,inspect_talent_gear}_mask.rs`): a little-endian bit
+pattern of `w` bytes, then one element per set bit in ascending bit order.  The value is one `.list []` (empty slot) or `.list [e]` per slot. -/
+def encSlots (enc : Val → Option Bytes) : List Val → Option (List Bool × Bytes)
+  | [] => some ([], [])
+  | .list [] :: vs => match encSlots enc vs with
+      | some (m, b) => some (false :: m, b)
+      | Option.none => Option.none
+  | .list [e] :: vs => match enc e, encSlots enc vs with
+      | some eb, some (m, b) => some (true :: m, eb ++ b)
+      | _, _ => Option.none
+  | _ => Option.none
+
+def decSlots (dec : Bytes → Except Err (Val × Bytes)) : List Bool → Bytes → Except Err (List Val × Bytes)
+  | [], bs => .ok ([], bs)
+  | false :: m, bs => match decSlots dec m bs with
+      | .ok (vs, r) => .ok (.list [] :: vs, r)
+      | .error x => .error x
+  | true :: m, bs => match dec bs with
+      | .error x => .error x
+      | .ok (e, r) => match decSlots dec m r with
+          | .ok (vs, r2) => .ok (.list [e] :: vs, r2)
+          | .error x => .error x
+
+def encMask (w : Nat) (enc : Val → Option Bytes) : Val → Option Bytes
+  | .list slots =>
+      if slots.length = 8 * w then
+        match encSlots enc slots with
+        | some (m, b) => (encInt w .le (bitsToNat m)).map (· ++ b)
+        | Option.none => Option.none
+      else Option.none
+  | _ => Option.none
+
+def decMask (w : Nat) (dec : Bytes → Except Err (Val × Bytes)) (bs : Bytes) : Except Err (Val × Bytes) :=
+  match decInt w .le bs with
+  | .error x => .error x
+  | .ok (p, r) => match decSlots dec (natToBits (8 * w) p) r with
+      | .ok (vs, r2) => .ok (.list vs, r2)
+      | .error x => .error x
+
+/-- InspectTalentGear (Wrath): Item (u32), EnchantMask, u16, PackedGuid creator, u32 -/
+def gearTail : List BLeaf := [.u16, .pg, .u32]
+
+def encGear : Val → Option Bytes
+  | .tuple (.nat item :: em :: fs) =>
+      match encB .u32 item, encMask 2 (tupleOf [.u16]) em, encBs gearTail fs with
+      | some a, some b, some c => some (a ++ b ++ c)
+      | _, _, _ => Option.none
+  | _ => Option.none
+
+def decGear (bs : Bytes) : Except Err (Val × Bytes) :=
+  match decB .u32 bs with
+  | .error x => .error x
+  | .ok (item, r) => match decMask 2 (decTuple [.u16]) r with
+      | .error x => .error x
+      | .ok (em, r2) => match decBs gearTail r2 with
+          | .error x => .error x
+          | .ok (fs, r3) => .ok (.tuple (.nat item :: em :: fs), r3)
+
+def splitAtZero : Bytes → Option (Bytes × Bytes)
+  | [] => Option.none
+  | b :: bs => if b == 0 then some ([], bs) else (splitAtZero bs).map fun (s, r) => (b :: s, r)
+
+/-- NamedGuid (TBC, Wrath): u64 guid, followed by a CString name exactly when the guid is not zero -/
+def encNamedGuid : Val → Option Bytes
+  | .tuple [.nat g] => if g = 0 then encInt 8 .le 0 else Option.none
+  | .tuple [.nat g, .bytes s] =>
+      if g ≠ 0 ∧ s.contains 0 = false then (encInt 8 .le g).map (· ++ (s ++ [0])) else Option.none
+  | _ => Option.none
+
+def decNamedGuid (bs : Bytes) : Except Err (Val × Bytes) :=
+  match decInt 8 .le bs with
+  | .error x => .error x
+  | .ok (g, r) =>
+    if g = 0 then .ok (.tuple [.nat g], r) else
+    match splitAtZero r with
+    | some (s, r2) => .ok (.tuple [.nat g, .bytes s], r2)
+    | Option.none => .error .eof
+
+/-- VariableItemRandomProperty (TBC, Wrath): u32 id, followed by a u32 suffix factor exactly when the id is not zero -/
+def encVirp : Val → Option Bytes
+  | .tuple [.nat id] => if id = 0 then encInt 4 .le 0 else Option.none
+  | .tuple [.nat id, .nat sf] =>
+      if id ≠ 0 then
+        match encInt 4 .le id, encInt 4 .le sf with
+        | some a, some b => some (a ++ b)
+        | _, _ => Option.none
+      else Option.none
+  | _ => Option.none
+
+def decVirp (bs : Bytes) : Except Err (Val × Bytes) :=
+  match decInt 4 .le bs with
+  | .error x => .error x
+  | .ok (id, r) =>
+    if id = 0 then .ok (.tuple [.nat id], r) else
+    match decInt 4 .le r with
+    | .ok (sf, r2) => .ok (.tuple [.nat id, .nat sf], r2)
+    | .error x => .error x
+
 def achDoneFields : List BLeaf := [.dt]
 def achProgFields : List BLeaf := [.pg, .pg, .bool32, .dt, .u32, .u32]
 
@@ -352,6 +468,10 @@ def encPrim (name : String) (v : Val) : Option Bytes :=
   | .achProg, .list vs => encSent achProgFields vs
   | .splines, .list vs => encSplines vs
   | .updateMask, v => encUpdateMask v
+  | .mask w ls, v => encMask w (tupleOf ls) v
+  | .gear, v => encMask 4 encGear v
+  | .namedGuid, v => encNamedGuid v
+  | .virp, v => encVirp v
   | _, _ => Option.none
 
 def decPrim (name : String) (bs : Bytes) : Except Err (Val × Bytes) :=
@@ -366,6 +486,10 @@ def decPrim (name : String) (bs : Bytes) : Except Err (Val × Bytes) :=
       | .ok (vs, r) => .ok (.list vs, r)
       | .error x => .error x
   | .updateMask => decUpdateMask bs
+  | .mask w ls => decMask w (decTuple ls) bs
+  | .gear => decMask 4 decGear bs
+  | .namedGuid => decNamedGuid bs
+  | .virp => decVirp bs
   | .other => .error (.unsupported name)
 
 def encLeaf (l : Leaf) (v : Val) : Option Bytes :=
@@ -383,10 +507,6 @@ def encLeaf (l : Leaf) (v : Val) : Option Bytes :=
       if n < 256 ^ 8 then let (m, p) := packBytes (encLE 8 n); some (UInt8.ofNat (bitsToNat m) :: p) else Option.none
   | .prim name, v => encPrim name v
   | _, _ => Option.none
-
-def splitAtZero : Bytes → Option (Bytes × Bytes)
-  | [] => Option.none
-  | b :: bs => if b == 0 then some ([], bs) else (splitAtZero bs).map fun (s, r) => (b :: s, r)
 
 def decLeaf (l : Leaf) (bs : Bytes) : Except Err (Val × Bytes) :=
   match l with
